@@ -510,7 +510,9 @@ def check_C05(tier, seed):
                         mcs=[("inc14o3", 15, bt.seed_inc(14), 3, 1, {}),
                              ("nest14o3", 15, bt.seed_nested(14, (5, 10)), 3, 1, nest)], guards=[f1, f13, f6],
                         gens=[("sparse", 15, bt.seed_sparse(14, [2, 3, 5, 9, 12]), 3, 1, {}),
-                              ("dec12", 13, bt.seed_dec(12), 3, 1, {})])
+                              ("dec12", 13, bt.seed_dec(12), 3, 1, {}),
+                              # pairs with values of 1.5 pages among the small ones: overflow runs, uneven splits
+                              ("big14", 15, bt.seed_inc(14), 3, 1, dict(big=(3, 8, 12), opkeys=range(1, 10)))])
     else:
         btree = bt.legs(v, "C05", readback=False,
                         mcs=[("inc14o4", 15, bt.seed_inc(14), 4, 1, {}), ("e8", 8, [], 3, 3, {}),
@@ -521,7 +523,9 @@ def check_C05(tier, seed):
                         gens=[("sparse", 15, bt.seed_sparse(14, [2, 3, 5, 9, 12]), 3, 2, dict(opkeys=range(1, 10))),
                               ("dec12", 13, bt.seed_dec(12), 2, 2, {}),
                               ("inc14d5", 15, bt.seed_inc(14), 5, 1, dict(kinds=("del",))),
-                              ("walk", 16, [], 5, 8, dict(simulate="num=3000", workers=1))])
+                              ("big14", 15, bt.seed_inc(14), 3, 1, dict(big=(3, 8, 12))),
+                              ("bigbulk", 15, bt.seed_bulk(14), 3, 1, dict(big=(2, 3, 9, 14))),
+                              ("walk", 16, [], 5, 8, dict(simulate="num=3000", workers=1, big=(2, 7, 11, 16)))])
     return finish_l1(v, tier, seed, mc, stats, btree=btree, rule=
                      "every page image the library writes is decoded by the independent parser; TLC (Trace_Page) rebuilds the "
                      "page table and at every header write evaluates the structural predicates (ids, types, counts, strictly "
